@@ -172,7 +172,7 @@ def validate(ctx: Ctx, traces: list[dict], name: str) -> None:
 
 
 # ---- random larger DAGs ----------------------------------------------------------------------------
-def random_desc(rng: random.Random, nf: int, picker: bool = False, hook: bool = False) -> dict:
+def random_desc(rng: random.Random, nf: int, picker: bool = False, hook: bool = False, conflict: bool = False) -> dict:
     roots = ["x", "y", "z", "w"]
     funcs = []
     avail = list(roots)
@@ -190,9 +190,12 @@ def random_desc(rng: random.Random, nf: int, picker: bool = False, hook: bool = 
         bnd = []
         for p in params:
             r = rng.random()
-            if (p in roots and r < 0.2) or (p not in roots and r < 0.12):
-                # (a default on a parameter that another function produces is legal: the produced value wins)
-                dfl.append([p, {"f": f"@d_{p}", "a": []}])
+            hot = bool(funcs) and p == funcs[0]["outputs"][0]       # the output several consumers share (diamond bias above)
+            if (p in roots and r < 0.2) or (p not in roots and r < (0.4 if hot else 0.12)):
+                # (a default on a parameter that another function produces is legal: the produced value wins - so two
+                # consumers may even declare DIFFERENT defaults for it; root arguments get one value per name)
+                # (conflict=True; other users of this generator drop / cut producers, which would make such a pair ill-formed)
+                dfl.append([p, {"f": f"@d_{p}" if (p in roots or not conflict) else f"@d_{p}_{i}", "a": []}])
             elif r > 0.88:
                 bnd.append([p, {"f": f"@b_{p}_{i}", "a": []}])
         funcs.append({"name": name, "params": params, "outputs": outs, "defaults": dfl, "bound": bnd, "has_ms": False,
@@ -303,7 +306,7 @@ def run(ctx: Ctx) -> None:
     rtraces = []
     for _ in range(150 if quick else 2500):
         build.LOG.clear()
-        td = random_desc(rng, rng.randint(3, 6), picker=True, hook=True)
+        td = random_desc(rng, rng.randint(3, 6), picker=True, hook=True, conflict=True)
         for f in td["funcs"]:
             if f["picker"]:
                 f["hook"] = False          # (the hook's result would be the raw mapping)
